@@ -117,7 +117,9 @@ impl ReplicationFetcher {
         self.remove_stored_keys(locally_stored_keys);
 
         // Special case for single new key
-        if new_incoming_keys.len() == 1 {
+        // Only a single-key advertisement (fresh replication) takes this path: a periodic
+        // multi-key list with one new entry must still pass the range filter and the fetch cap.
+        if total_incoming_keys == 1 && new_incoming_keys.len() == 1 {
             let (record_address, record_type) = new_incoming_keys[0].clone();
 
             let new_data_key = (record_address.to_record_key(), record_type);
